@@ -11,6 +11,9 @@
 (*     inclusion / command-line parse of the file (skipped = the           *)
 (*     implementation did not open it again; pragma = it recorded          *)
 (*     #pragma once for the file while parsing it).                        *)
+(*   - ownership runs: {"e":"OwnCase","cmdSpell":..,"reach":..,"order":..,  *)
+(*     "cwdHas":0|1,"guard":g} followed by {"e":"OwnInc","src":<source     *)
+(*     class logged for the #include that reaches the command-line file>}. *)
 (* are consumed by the actions of IncludeSearch; Refines / OnceOnly are    *)
 (* evaluated on every observed execution.                                  *)
 (***************************************************************************)
@@ -23,25 +26,25 @@ VARIABLE l
 tvars == <<vars, l>>
 
 IsE(i, e) == i <= NTr /\ Tr[i].e = e
-Ours == {"Case", "Include", "OnceCase", "Inc", "Reset"}
+Ours == {"Case", "Include", "OnceCase", "Inc", "OwnCase", "OwnInc", "Reset"}
 SeqSet(s) == {s[i] : i \in 1..Len(s)}
 B(x) == IF x THEN 1 ELSE 0
 
 BlankRest ==
   /\ spelled' = <<>> /\ parsed' = {} /\ pragma' = {} /\ defined' = FALSE
   /\ mcount' = 0 /\ rcount' = 0 /\ rres' = NotFound /\ mres' = NotFound
-Blank == guard' = "none" /\ BlankRest
+Blank == guard' = "none" /\ BlankRest /\ own' = NoOwn
 
 TInit ==
   /\ present = {} /\ cmd = <<>> /\ form = "quote" /\ noangles = FALSE /\ incIsCwd = FALSE
   /\ explicit = "none" /\ explicitViaLink = FALSE
   /\ phase = "idle" /\ rres = NotFound /\ mres = NotFound
   /\ guard = "none" /\ spelled = <<>> /\ parsed = {} /\ pragma = {} /\ defined = FALSE
-  /\ mcount = 0 /\ rcount = 0
+  /\ mcount = 0 /\ rcount = 0 /\ own = NoOwn
   /\ l = 1
 
 TReset ==
-  /\ IsE(l, "Reset") /\ phase # "case"          \* a lookup case must have been resolved
+  /\ IsE(l, "Reset") /\ phase \notin {"case", "own"}     \* a lookup / ownership case must have been resolved
   /\ phase' = "idle" /\ Blank
   /\ UNCHANGED <<present, cmd, form, noangles, incIsCwd, explicit, explicitViaLink>>
   /\ l' = l + 1
@@ -62,7 +65,7 @@ TInclude ==
 
 TOnceCase ==
   /\ IsE(l, "OnceCase") /\ phase = "idle"
-  /\ phase' = "once" /\ BlankRest /\ guard' = Tr[l].guard
+  /\ phase' = "once" /\ BlankRest /\ guard' = Tr[l].guard /\ own' = NoOwn
   /\ UNCHANGED <<present, cmd, form, noangles, incIsCwd, explicit, explicitViaLink>>
   /\ l' = l + 1
 
@@ -74,12 +77,25 @@ TInc ==
   /\ Tr[l].pragma = B(pragma' # pragma)
   /\ l' = l + 1
 
+TOwnCase ==
+  /\ IsE(l, "OwnCase") /\ phase = "idle"
+  /\ phase' = "own" /\ BlankRest /\ guard' = Tr[l].guard
+  /\ own' = [cmdSpell |-> Tr[l].cmdSpell, reach |-> Tr[l].reach, order |-> Tr[l].order, cwdHas |-> (Tr[l].cwdHas = 1)]
+  /\ UNCHANGED <<present, cmd, form, noangles, incIsCwd, explicit, explicitViaLink>>
+  /\ l' = l + 1
+
+\* the #include that reaches the command-line file: the logged source class is the reference's
+TOwnInc ==
+  /\ IsE(l, "OwnInc") /\ ResolveOwn
+  /\ Tr[l].src = rres'.src
+  /\ l' = l + 1
+
 TForeign ==
   /\ l <= NTr /\ Tr[l].e \notin Ours
   /\ UNCHANGED vars /\ l' = l + 1
 
-TDone == l = NTr + 1 /\ phase # "case" /\ UNCHANGED tvars
+TDone == l = NTr + 1 /\ phase \notin {"case", "own"} /\ UNCHANGED tvars
 
-TNext == TReset \/ TCase \/ TInclude \/ TOnceCase \/ TInc \/ TForeign \/ TDone
+TNext == TReset \/ TCase \/ TInclude \/ TOnceCase \/ TInc \/ TOwnCase \/ TOwnInc \/ TForeign \/ TDone
 TSpec == TInit /\ [][TNext]_tvars
 =============================================================================
